@@ -36,20 +36,20 @@ type wireFrame struct {
 }
 
 type callPlan struct {
-	id        int
-	tag       string
-	method    string
-	args      []any
-	outcome   string // ok | ex1 | ex2 | undeclared | appex
-	appType   int32
-	msg       string
-	ret       any
-	oneway    bool
-	reqHdr    map[string]string
-	cid       string
-	timeout   time.Duration
-	respHdr   map[string]string
-	dur       time.Duration
+	id      int
+	tag     string
+	method  string
+	args    []any
+	outcome string // ok | ex1 | ex2 | undeclared | appex
+	appType int32
+	msg     string
+	ret     any
+	oneway  bool
+	reqHdr  map[string]string
+	cid     string
+	timeout time.Duration
+	respHdr map[string]string
+	dur     time.Duration
 	// observed on the server
 	handlerRuns int
 	seenArgs    []any
@@ -58,48 +58,48 @@ type callPlan struct {
 	seenTimeout time.Duration
 	seenOpid    string
 	// observed by the caller
-	opid        string
-	gotRet      any
-	gotErr      error
-	gotRespHdr  map[string]string
-	returned    bool
-	invokeStep, returnStep int
-	invokeAt, returnAt     time.Duration
-	mw          []string // client-side middleware trace
-	mwSrv       []string // processor-side middleware trace
-	mwSaw       []string // per middleware (innermost first): the result it saw coming back
-	via2        bool     // issued through the second client
-	shape       func(hdr map[string]string)
+	opid                                                 string
+	gotRet                                               any
+	gotErr                                               error
+	gotRespHdr                                           map[string]string
+	returned                                             bool
+	invokeStep, returnStep                               int
+	invokeAt, returnAt                                   time.Duration
+	mw                                                   []string // client-side middleware trace
+	mwSrv                                                []string // processor-side middleware trace
+	mwSaw                                                []string // per middleware (innermost first): the result it saw coming back
+	via2                                                 bool     // issued through the second client
+	shape                                                func(hdr map[string]string)
 	expectReqTooLarge, expectRespTooLarge, sizeAmbiguous bool
-	sizeInfo    string
+	sizeInfo                                             string
 }
 
 type e2eEnv struct {
-	rc     *RunCtx
-	s      *simrt.Sim
-	kind   string // adapter | http | nats
-	proto  string // binary | compact | json
-	pf     *frugal.FProtocolFactory
-	tr     frugal.FTransport
-	client *simsvc.FSimSvcClient
-	client2 *simsvc.FSimSvcClient
+	rc        *RunCtx
+	s         *simrt.Sim
+	kind      string // adapter | http | nats
+	proto     string // binary | compact | json
+	pf        *frugal.FProtocolFactory
+	tr        frugal.FTransport
+	client    *simsvc.FSimSvcClient
+	client2   *simsvc.FSimSvcClient
 	prov2Spec []mwSpec
-	proc   frugal.FProcessor
-	plans  map[string]*callPlan
-	wire   []wireFrame
+	proc      frugal.FProcessor
+	plans     map[string]*callPlan
+	wire      []wireFrame
 	// per transport
-	lst     *simListener
-	srv     frugal.FServer
-	b       *SimBroker
-	cliConn, srvConn *nats.Conn
-	streams []*SimStream
+	lst                         *simListener
+	srv                         frugal.FServer
+	b                           *SimBroker
+	cliConn, srvConn            *nats.Conn
+	streams                     []*SimStream
 	httpReqLimit, httpRespLimit uint
-	httpLatency func() time.Duration
-	natsWorkers int
-	serveDone   chan struct{}
-	handlerHook func(p *callPlan, fctx frugal.FContext)
-	connN       int
-	rawHTTP     http.HandlerFunc
+	httpLatency                 func() time.Duration
+	natsWorkers                 int
+	serveDone                   chan struct{}
+	handlerHook                 func(p *callPlan, fctx frugal.FContext)
+	connN                       int
+	rawHTTP                     http.HandlerFunc
 }
 
 func protoFactory(name string) thrift.TProtocolFactory {
